@@ -11,7 +11,6 @@ class Neg(UnaryNode):
                 child : stl.Node
         """
         super(Neg, self).__init__(child)
-        self.add_child(child)
         self.in_vars = child.in_vars
         self.out_vars = child.out_vars
 
